@@ -434,7 +434,18 @@ class Gen:
       a.styles["BackgroundColor"] = ("C", rng.choice([(255, 0, 0, 255), (0, 0, 255, 255), (0, 0, 0, 136)]))
       a.styles.pop("Display", None); a.styles.pop("Opacity", None); a.styles.pop("Visibility", None)
       b = rng.choice(TIME_GRID)
-      a.anims.append(("ShowBackground", b, b + rng.choice([Fr(1, 2), Fr(1), Fr(3)]), E("ShowBackgroundType", "always")))
+      if rng.random() < 0.5:
+        a.anims.append(("ShowBackground", b, b + rng.choice([Fr(1, 2), Fr(1), Fr(3)]), E("ShowBackgroundType", "always")))
+      else:
+        # variant: always shown but fully transparent, made visible by an opacity (or visibility) step
+        a.styles["ShowBackground"] = E("ShowBackgroundType", "always")
+        a.anims = [x for x in a.anims if x[0] not in ("BackgroundColor", "Display", "ShowBackground", "Visibility", "Opacity")]
+        if rng.random() < 0.6:
+          a.styles["Opacity"] = 0
+          a.anims.append(("Opacity", b, b + rng.choice([Fr(1, 2), Fr(1), Fr(3)]), 1))
+        else:
+          a.styles["Visibility"] = E("VisibilityType", "hidden")
+          a.anims.append(("Visibility", b, b + rng.choice([Fr(1, 2), Fr(1), Fr(3)]), E("VisibilityType", "visible")))
       self.classes.add("region-bg-by-animation")
     return a
 
